@@ -432,7 +432,7 @@ def prepare(items):
 # ----------------------------------------------------------------------------- the check
 
 def run(tier):
-    ck = c.Check(PROP, tier, level="trace_validation")
+    ck = c.Check(PROP, tier, level="model_checking")
     repo = repo_root()
     tests_dir = Path("polyply") / "tests"
     focus = sorted(str(tests_dir / f) for f in FOCUS if (repo / tests_dir / f).exists())      # the order pytest itself uses for the directory
@@ -657,7 +657,7 @@ def _vacuity(ck, tests, items, focus, perr):
 def replay(path):
     doc = json.loads(open(path).read())
     case = doc["case"]
-    ck = c.Check(PROP, "quick", level="trace_validation")
+    ck = c.Check(PROP, "quick", level="model_checking")
     repo = repo_root()
     scratch = tempfile.mkdtemp(prefix="x07_", dir="/var/tmp")
     try:
